@@ -292,7 +292,7 @@ func genC20Format(r *rand.Rand, unixSafe bool) []string {
 
 func c20Logger(c *ctx) {
 	n := c.scale(c.pick(1500000, 30000000))
-	c.R.Rule = "generated formats over logger.Fields, $header.<name> and literal text x generated events (End in years 1-9999 in any location incl. DST zones, durations 0-30 days, sizes over the int64 boundary set, status 100-999, addresses with/without port, IPv6, empty); output must be exactly one newline-terminated line equal to an independent rendering with fmt/strconv/time.Format(UTC)/net.SplitHostPort/net/url; 32 goroutines share one logger; plus HTTPProxy.ServeHTTP with a logger over every field. non-trivial = event in a non-UTC location or an upstream address without port or size >= 2^31; distinct by (format,event)"
+	c.R.Rule = "generated formats over logger.Fields, $header.<name> and literal text x generated events (End in years 1-9999 in any location incl. DST zones, durations 0-30 days and negative ones (a clock stepping back), sizes over the int64 boundary set incl. -1 and MinInt64, status 100-999, addresses with/without port, IPv6, empty); output must be exactly one newline-terminated line equal to an independent rendering with fmt/strconv/time.Format(UTC)/net.SplitHostPort/net/url; 32 goroutines share one logger; plus HTTPProxy.ServeHTTP with a logger over every field. non-trivial = event in a non-UTC location or an upstream address without port or size >= 2^31; distinct by (format,event)"
 	// (a) single events
 	parallel(c, n, func(r *rand.Rand, i int) {
 		unixSafe := r.Intn(2) == 0
